@@ -38,6 +38,7 @@ inductive HubOp where
   | chat (c : Nat) (m : String)              -- an authenticated operator's chat message
   | lAdd (c : Nat) (n : String)
   | lRemove (c : Nat) (n : String)
+  | lNotify (n : String)                     -- a (service) listener reports its status: the teamserver records and broadcasts another add event
   | register (id : String)
   | dead (c : Nat) (id : String)
   | fail (c : Nat)                           -- the transport of c is cut
@@ -104,6 +105,7 @@ def hubStep (s : Hub) : HubOp → Hub
         else s1
       (s2.retain (.lRemove n)).broadcast (.lRemove n) none
     | _ => s
+  | .lNotify n => (s.retain (.lAdd n)).broadcast (.lAdd n) none
   | .register id =>
     if s.sessions.any (·.1 == id) then s
     else { s with sessions := s.sessions ++ [(id, true)] }.broadcast (.session id) none
